@@ -689,6 +689,26 @@ def post_c07_removal(case, st):
                      "a parser that had just accepted the fully required script gives %s for the script without %r" % (o3.brief(), ext))
             v["prior_hex"] = case.text.hex()
             out.append(v)
+    # two needed extensions removed at once: the message must name the one that is missing FIRST in script order
+    exts = sorted({u[0] for u in v.uses})
+    for i, e1 in enumerate(exts):
+        for e2 in exts[i + 1:]:
+            raw2 = remove_extension(case.raw, e1)
+            raw3 = remove_extension(raw2, e2) if raw2 is not None else None
+            if raw3 is None:
+                continue
+            c3 = execute(case.word, raw=raw3, want_config=False)
+            st.executions += 1
+            if c3.v.kind != "INVALID" or c3.v.reason not in ("EXT_CMD", "EXT_TAG") or c3.v.detail not in (e1, e2):
+                continue
+            expect = "extension '%s' not loaded" % c3.v.detail
+            obs = c3.obs
+            ok = obs.verdict == "REJ" and isinstance(obs.error, str) and re.match(r"^line \d+: ", obs.error) and \
+                obs.error.split(": ", 1)[1] == expect
+            if not ok:
+                out.append(viol("C07", "removal-pair", c3, c3.v.reason, c3.v.owner, c3.v.detail, c3.v.ctx,
+                                "after removing %r and %r from require: expected rejection %r (first missing in script order), got %s" % (
+                                    e1, e2, expect, obs.brief())))
     return out
 
 
